@@ -5,11 +5,14 @@
 // untouched,
 //
 //	SUB   every single-byte substitution of every byte after the header; values per offset:
-//	      all 255 others for bodies <= 64 B (and, thorough, both Byron main blocks), else a
-//	      fixed ordered type-confusing alphabet (b^01, b^80, b+1, b-1, b^20, b^40, 00, ff, 80,
-//	      a0, 40, 60, f6, 9f, 18, 1b) cut to 2 (quick, small bodies) / 2 at every 8th or 32nd
-//	      offset (quick, large bodies) / 16, 6 or 3 at every offset (thorough, by body size);
-//	      the 648 kB epoch boundary block: 2 values at every 16384th / 1024th offset plus 16
+//	      all 255 others for bodies <= 64 B (Byron main 667 B block, small Shelley, real
+//	      Dijkstra), else the first k values of a fixed ordered type-confusing alphabet
+//	      (b^01, b^80, b+1, b-1, b^20, b^40, 00, ff, 80, a0, 40, 60, f6, 9f, 18, 1b):
+//	      quick k=2 (bodies <= 2.3 kB: every offset; <= 10 kB: every 8th; larger: every 32nd),
+//	      thorough every offset with k=16 (<= 2.3 kB), 6 (<= 10 kB), 3 (<= 20 kB), 2 (larger);
+//	      in the generated Dijkstra block the second (verbatim) copy of the transaction is
+//	      not mutated by SUB/REENC/TREE;
+//	      the 648 kB epoch boundary block: 2 values at every 16384th / 4096th offset plus 16
 //	      values at its 5 framing bytes (the exact plan is written to the evidence);
 //	REENC every single-header re-encoding (the space.EnumD1 alphabet: wider length/integer/tag
 //	      arguments, definite <-> indefinite) of every CBOR item after the header (quick:
@@ -278,7 +281,13 @@ type fixture struct {
 
 	subOnce  sync.Once
 	subClass []string
+
+	// [skipFrom, skipTo): byte range excluded from SUB/REENC/TREE because it is a verbatim
+	// copy of an earlier part (the second copy of the transaction in the generated block)
+	skipFrom, skipTo int
 }
+
+func (f *fixture) skipped(off int) bool { return off >= f.skipFrom && off < f.skipTo }
 
 func segNames(typ uint, n int) []string {
 	var base []string
@@ -548,7 +557,7 @@ func (f *fixture) splice(n *space.Node, sub []byte) []byte {
 // main() verifies, so this equals re-encoding the whole edited tree).
 func (f *fixture) reencMutants(maxDepth int, emit func(mutant)) {
 	sites := space.Sites(f.tree, func(n *space.Node, path []int) bool {
-		return len(path) >= 1 && path[0] >= 1 && (maxDepth == 0 || len(path) <= maxDepth)
+		return len(path) >= 1 && path[0] >= 1 && (maxDepth == 0 || len(path) <= maxDepth) && !f.skipped(n.Start)
 	})
 	kinds := []string{"uint", "nint", "bstr", "tstr", "arr", "map", "tag", "simple"}
 	for _, st := range sites {
@@ -582,7 +591,7 @@ func (f *fixture) treeMutants(maxDepth int, emit func(mutant)) {
 		if n.Major != 4 && n.Major != 5 {
 			return
 		}
-		if len(path) == 0 || (path[0] >= 1 && len(path) <= maxDepth) {
+		if len(path) == 0 || (path[0] >= 1 && len(path) <= maxDepth && !f.skipped(n.Start)) {
 			sites = append(sites, site{append([]int{}, path...)})
 		}
 	})
@@ -1010,6 +1019,11 @@ func main() {
 			f.segEnds = append(f.segEnds, it.End)
 		}
 		f.segName = segNames(r.Type, len(f.segEnds))
+		if r.Name == "dijkstra-generated" {
+			if txs := tree.Items[1].Items[1]; txs.IsArray() && len(txs.Items) == 2 {
+				f.skipFrom, f.skipTo = txs.Items[1].Start, txs.Items[1].End
+			}
+		}
 		p, ok := projection(r.Type, r.Cbor)
 		if !ok {
 			c.Internal("fixture %s: cannot extract the committed part", r.Name)
@@ -1108,6 +1122,9 @@ func main() {
 			f.prepSub()
 			var buf [16]byte
 			for off := f.bodyOff; off < len(f.Cbor); off += stride {
+				if f.skipped(off) {
+					continue
+				}
 				orig := f.Cbor[off]
 				var vals []byte
 				if all {
@@ -1146,7 +1163,7 @@ func main() {
 		}
 		body := len(f.Cbor) - f.bodyOff
 		switch {
-		case body <= 64 || (thorough && f.Type == 1):
+		case body <= 64:
 			subPlan[f.Name] = "every offset x all 255 other values"
 			run(f, "SUB", subGen(f, 1, 0, true))
 		case thorough:
@@ -1172,14 +1189,14 @@ func main() {
 		body := len(f.Cbor) - f.bodyOff
 		switch {
 		case thorough && body <= 10000:
-			subPlan[f.Name] = "every offset x 16 values"
-			run(f, "SUB", subGen(f, 1, 16, false))
-		case thorough && body <= 20000:
 			subPlan[f.Name] = "every offset x 6 values"
 			run(f, "SUB", subGen(f, 1, 6, false))
-		case thorough:
+		case thorough && body <= 20000:
 			subPlan[f.Name] = "every offset x 3 values"
 			run(f, "SUB", subGen(f, 1, 3, false))
+		case thorough:
+			subPlan[f.Name] = "every offset x 2 values"
+			run(f, "SUB", subGen(f, 1, 2, false))
 		case body <= 10000:
 			subPlan[f.Name] = "every 8th offset x 2 values"
 			run(f, "SUB", subGen(f, 8, 2, false))
@@ -1196,7 +1213,7 @@ func main() {
 		}
 		stride := 16384
 		if thorough {
-			stride = 1024
+			stride = 4096
 		}
 		subPlan[f.Name] = fmt.Sprintf("every %dth offset x 2 values + 16 values at the 5 framing bytes; TREE/REENC on the body and extra-data containers only", stride)
 		run(f, "TREE", func(e func(mutant)) { f.ebbStructural(e) })
